@@ -30,6 +30,7 @@ type FontSpec struct {
 	Enc      map[rune][]byte // how to write each available rune
 	Alphabet []rune          // available runes (sorted, no white space except ' ')
 	CMapForm int             // Type0 / ToUnicode: 0 bfchar only, 1 bfrange where possible, 2 bfrange with array
+	Widths   int             // standard Type1 fonts: 0 no /Widths, else every glyph this wide (a document's own metrics)
 }
 
 var asciiSafe = func() []rune {
@@ -166,6 +167,16 @@ func (f *FontSpec) Objects(alloc func() int, genOf func(int) int, indirectParts 
 		fontDict = Dict{{"Type", Name("Font")}, {"Subtype", Name("Type1")}, {"BaseFont", Name(f.Base)}, {"Encoding", Name("WinAnsiEncoding")}}
 	case FontStdMacRoman:
 		fontDict = Dict{{"Type", Name("Font")}, {"Subtype", Name("Type1")}, {"BaseFont", Name(f.Base)}, {"Encoding", Name("MacRomanEncoding")}}
+	}
+	if f.Widths > 0 && (f.Kind == FontStdBuiltin || f.Kind == FontStdWinAnsi || f.Kind == FontStdMacRoman) {
+		// the document brings its own metrics for a standard font (legal, and common for subsets)
+		widths := Arr{}
+		for c := 32; c <= 255; c++ {
+			widths = append(widths, f.Widths+(c%7)*10)
+		}
+		fontDict = append(fontDict, KV{"FirstChar", 32}, KV{"LastChar", 255}, KV{"Widths", indirect(widths)})
+	}
+	switch f.Kind {
 	case FontTrueTypeWin:
 		widths := Arr{}
 		for c := 32; c <= 255; c++ {
